@@ -446,7 +446,7 @@ func collectSignedHeaders(r *http.Request, headersToInclude []string) []pair {
 	for headerKey, headerValues := range r.Header {
 		headerKey = strings.ToLower(headerKey)
 		if includeInCanonicalHeaders(headerKey, headersToInclude) {
-			headerVal := strings.TrimSpace(strings.Join(headerValues, ","))
+			headerVal := collapseSequentialSpaces(strings.TrimSpace(strings.Join(headerValues, ",")))
 			headers = append(headers, pair{
 				key: headerKey,
 				val: headerVal,
@@ -457,6 +457,27 @@ func collectSignedHeaders(r *http.Request, headersToInclude []string) []pair {
 		return cmp.Compare(a.key, b.key)
 	})
 	return headers
+}
+
+// collapseSequentialSpaces converts runs of spaces inside a header value to a
+// single space, as SigV4 requires for canonical header values ("Trimall") and
+// as the AWS SDK signers do before signing.
+func collapseSequentialSpaces(value string) string {
+	if !strings.Contains(value, "  ") {
+		return value
+	}
+	var collapsed strings.Builder
+	collapsed.Grow(len(value))
+	previousWasSpace := false
+	for idx := 0; idx < len(value); idx++ {
+		ch := value[idx]
+		if ch == ' ' && previousWasSpace {
+			continue
+		}
+		previousWasSpace = ch == ' '
+		collapsed.WriteByte(ch)
+	}
+	return collapsed.String()
 }
 
 func generateCanonicalHeaders(r *http.Request, headersToInclude []string) string {
